@@ -1,6 +1,8 @@
 pub mod c05;
 pub mod c08;
 pub mod c12;
+pub mod c17;
+pub mod c19;
 pub mod dhcp_hist;
 pub mod dnsmisc;
 pub mod dnswire;
